@@ -80,6 +80,9 @@ type scheduler struct {
 
 var S *scheduler
 
+// abortStack is the call stack of the goroutine in which the run was aborted.
+var abortStack []*ssa.Function
+
 func resetSched() {
 	m := &gor{id: 0, wake: make(chan struct{}, 1), clock: vclock{1}}
 	S = &scheduler{gs: []*gor{m}, cur: m, Max: MaxPreempt, hist: map[*value]*cellHist{}}
@@ -174,6 +177,16 @@ func raceCheck(fr *frame, addr *value, isStore bool) {
 	}
 }
 
+// pickRunnable chooses who runs next at a blocking operation: a free choice of
+// the explorer, except in deterministic mode (preemption bound 0) where the
+// oldest runnable goroutine runs.
+func pickRunnable(n int) int {
+	if S.Max == 0 || n == 1 {
+		return 0
+	}
+	return X.Choose(n)
+}
+
 func switchTo(g *gor) {
 	sched := S
 	me := sched.cur
@@ -202,7 +215,7 @@ func block(cond func() bool) {
 			S.cur.blocked = nil
 			panic(abortPath{KDeadlock, "all goroutines are blocked"})
 		}
-		switchTo(rs[X.Choose(len(rs))])
+		switchTo(rs[pickRunnable(len(rs))])
 		S.cur.blocked = nil
 	}
 }
@@ -234,6 +247,7 @@ func spawn(fr *frame, pos token.Pos, fn value, args []value) {
 				if r := recover(); r != nil {
 					if sched.abort == nil && !sched.kill {
 						sched.abort = r
+						abortStack = append([]*ssa.Function(nil), CallStack...)
 					}
 				}
 			}()
@@ -269,7 +283,7 @@ func spawn(fr *frame, pos token.Pos, fn value, args []value) {
 					n = sched.gs[0]
 				}
 			}()
-			n = rs[X.Choose(len(rs))]
+			n = rs[pickRunnable(len(rs))]
 		}()
 		sched.cur = n
 		CallStack = n.stack
